@@ -22,15 +22,15 @@ Definition all_ok (p : prog) : Prop := forall g, In g (funs p) -> fn_ok p g = tr
 
 Lemma loop_clean bad body i cnt : 
   bad Iter = false ->
-  (forall w fr o w' fr' t, body w fr = Some (o, w', fr', t) -> clean bad t) ->
-  forall cur w fr o w' fr' t, loop body i cnt cur w fr = Some (o, w', fr', t) -> clean bad t.
+  (forall w fr o w' fr' t, body w fr = Done (o, w', fr', t) -> clean bad t) ->
+  forall cur w fr o w' fr' t, loop body i cnt cur w fr = Done (o, w', fr', t) -> clean bad t.
 Proof.
   intros HI Hb. induction cnt as [|c IH]; intros cur w fr o w' fr' t H; cbn in H.
   - inversion H; subst. apply clean_nil.
-  - destruct (body w _) as [[[[o1 w1] fr2] t1]|] eqn:E; [|discriminate].
+  - destruct (body w _) as [[[[o1 w1] fr2] t1]| |] eqn:E; try discriminate.
     pose proof (Hb _ _ _ _ _ _ E) as C1.
     destruct o1.
-    + destruct (loop body i c (cur + 1) w1 fr2) as [[[[o2 w2] fr3] t2]|] eqn:E2; [|discriminate].
+    + destruct (loop body i c (cur + 1) w1 fr2) as [[[[o2 w2] fr3] t2]| |] eqn:E2; try discriminate.
       inversion H; subst. apply clean_cons; auto. apply clean_app; eauto.
     + inversion H; subst. apply clean_cons; auto.
 Qed.
@@ -42,9 +42,9 @@ Proof. destruct a, b, c; cbn; auto. Qed.
 Lemma checked_clean p lim : lim_ok lim -> all_ok p ->
   forall n,
     (forall c w fr e v w' t, mle (fmut c) lim = true -> chk_expr p c e = true ->
-        eval n p w fr e = Some (v, w', t) -> clean (badl lim) t) /\
+        eval n p w fr e = Done (v, w', t) -> clean (badl lim) t) /\
     (forall c L w fr s o w' fr' t, mle (fmut c) lim = true -> chk_stmt p c L s = true ->
-        exec n p w fr s = Some (o, w', fr', t) -> clean (badl lim) t).
+        exec n p w fr s = Done (o, w', fr', t) -> clean (badl lim) t).
 Proof.
   intros Hlim Hall. induction n as [|n [IHe IHs]].
   - split; intros; discriminate.
@@ -62,20 +62,20 @@ Proof.
         rewrite Hm in Hc. discriminate.
       * inversion H; subst. exfalso. destruct Hlim; subst lim; destruct (fmut c); cbn in *; discriminate.
       * apply andb_prop in Hc. destruct Hc as [Ha Hb].
-        destruct (eval n p w fr e1) as [[[va w1] t1]|] eqn:E1; [|discriminate].
-        destruct (eval n p w1 fr e2) as [[[vb w2] t2]|] eqn:E2; [|discriminate].
+        destruct (eval n p w fr e1) as [[[va w1] t1]| |] eqn:E1; try discriminate.
+        destruct (eval n p w1 fr e2) as [[[vb w2] t2]| |] eqn:E2; try discriminate.
         inversion H; subst. apply clean_app; eauto.
       * apply andb_prop in Hc. destruct Hc as [Hg Ha].
-        destruct (eval n p w fr e) as [[[va w1] t1]|] eqn:E1; [|discriminate].
+        destruct (eval n p w fr e) as [[[va w1] t1]| |] eqn:E1; try discriminate.
         destruct (nth_error (funs p) f) as [g|] eqn:Eg; [|discriminate].
-        destruct (exec n p w1 _ (fbody g)) as [[[[o w2] fr2] t2]|] eqn:E2; [|discriminate].
+        destruct (exec n p w1 _ (fbody g)) as [[[[o w2] fr2] t2]| |] eqn:E2; try discriminate.
         inversion H; subst. apply clean_app; [eauto|].
         apply andb_prop in Hg. destruct Hg as [_ Hcall].
         assert (Hgm : mle (fmut g) lim = true).
         { unfold call_ok in Hcall. destruct Hlim; subst lim; destruct (fmut g), (fmut c); cbn in *; try discriminate; auto. }
         eapply (IHs g []); eauto. apply Hall. eapply nth_error_In; eauto.
       * apply andb_prop in Hc. destruct Hc as [Hc Ha]. apply andb_prop in Hc. destruct Hc as [Hk Hcall].
-        destruct (eval n p w fr e) as [[[va w1] t1]|] eqn:E1; [|discriminate].
+        destruct (eval n p w fr e) as [[[va w1] t1]| |] eqn:E1; try discriminate.
         pose proof (IHe _ _ _ _ _ _ _ Hm Ha E1) as C1.
         unfold call_ok in Hcall.
         destruct k.
@@ -88,7 +88,7 @@ Proof.
            ++ cbn in Hk. discriminate.
            ++ cbn in Hk. discriminate.
       * apply andb_prop in Hc. destruct Hc as [Hcall Ha].
-        destruct (eval n p w fr e) as [[[va w1] t1]|] eqn:E1; [|discriminate].
+        destruct (eval n p w fr e) as [[[va w1] t1]| |] eqn:E1; try discriminate.
         pose proof (IHe _ _ _ _ _ _ _ Hm Ha E1) as C1.
         unfold call_ok in Hcall.
         destruct m.
@@ -101,14 +101,14 @@ Proof.
     + intros c L w fr s o w' fr' t Hm Hc H. destruct s; cbn in H, Hc.
       * inversion H; subst. apply clean_nil.
       * apply andb_prop in Hc. destruct Hc as [Ha Hb].
-        destruct (exec n p w fr s1) as [[[[o1 w1] fr1] t1]|] eqn:E1; [|discriminate].
+        destruct (exec n p w fr s1) as [[[[o1 w1] fr1] t1]| |] eqn:E1; try discriminate.
         destruct o1.
-        -- destruct (exec n p w1 fr1 s2) as [[[[o2 w2] fr2] t2]|] eqn:E2; [|discriminate].
+        -- destruct (exec n p w1 fr1 s2) as [[[[o2 w2] fr2] t2]| |] eqn:E2; try discriminate.
            inversion H; subst. apply clean_app; eauto.
         -- inversion H; subst. eauto.
       * (* assign *) apply andb_prop in Hc. destruct Hc as [Hc He]. apply andb_prop in Hc. destruct Hc as [Hc _].
         apply andb_prop in Hc. destruct Hc as [Hw Hp].
-        destruct (eval n p w fr e) as [[[v w1] t1]|] eqn:E1; [|discriminate].
+        destruct (eval n p w fr e) as [[[v w1] t1]| |] eqn:E1; try discriminate.
         pose proof (IHe _ _ _ _ _ _ _ Hm He E1) as C1.
         destruct k; cbn in H; inversion H; subst; try (rewrite app_nil_r; exact C1);
           try (exfalso; unfold writable in Hw; destruct Hlim; subst lim; destruct (fmut c); cbn in *; discriminate).
@@ -116,38 +116,38 @@ Proof.
            exfalso. rewrite Hm in Hp. discriminate.
       * (* augassign *) apply andb_prop in Hc. destruct Hc as [Hc He]. apply andb_prop in Hc. destruct Hc as [Hc _].
         apply andb_prop in Hc. destruct Hc as [Hw Hp].
-        destruct (eval n p w fr e) as [[[v w1] t1]|] eqn:E1; [|discriminate].
+        destruct (eval n p w fr e) as [[[v w1] t1]| |] eqn:E1; try discriminate.
         pose proof (IHe _ _ _ _ _ _ _ Hm He E1) as C1.
         destruct k; cbn in H; inversion H; subst; cbn [app]; try (rewrite app_nil_r; exact C1);
           try (exfalso; unfold writable in Hw; destruct Hlim; subst lim; destruct (fmut c); cbn in *; discriminate).
         -- destruct Hlim; subst lim.
            ++ exfalso. rewrite Hm in Hp. discriminate.
            ++ apply clean_cons; [reflexivity|]. apply clean_app; auto. reflexivity.
-      * destruct (eval n p w fr e) as [[[v w1] t1]|] eqn:E1; [|discriminate]. inversion H; subst. eauto.
+      * destruct (eval n p w fr e) as [[[v w1] t1]| |] eqn:E1; try discriminate. inversion H; subst. eauto.
       * exfalso. apply andb_prop in Hc. destruct Hc as [Hl _].
         destruct Hlim; subst lim; destruct (fmut c); cbn in *; discriminate.
       * apply andb_prop in Hc. destruct Hc as [Hc Hb]. apply andb_prop in Hc. destruct Hc as [He Ha].
-        destruct (eval n p w fr c0) as [[[v w1] t1]|] eqn:E1; [|discriminate].
-        destruct (exec n p w1 fr (if v =? 0 then s2 else s1)) as [[[[o2 w2] fr2] t2]|] eqn:E2; [|discriminate].
+        destruct (eval n p w fr c0) as [[[v w1] t1]| |] eqn:E1; try discriminate.
+        destruct (exec n p w1 fr (if v =? 0 then s2 else s1)) as [[[[o2 w2] fr2] t2]| |] eqn:E2; try discriminate.
         inversion H; subst. apply clean_app; [eauto|]. destruct (v =? 0); eauto.
       * (* for range *) apply andb_prop in Hc. destruct Hc as [Hr Hb].
-        assert (Hbody : forall w fr o w' fr' t, exec n p w fr s = Some (o, w', fr', t) -> clean (badl lim) t)
+        assert (Hbody : forall w fr o w' fr' t, exec n p w fr s = Done (o, w', fr', t) -> clean (badl lim) t)
           by (intros; eapply IHs; eauto).
         destruct r; cbn in Hr.
         -- eapply loop_clean; [exact HIter| |exact H]. exact Hbody.
         -- apply andb_prop in Hr. destruct Hr as [Hr _]. apply andb_prop in Hr. destruct Hr as [_ He].
-           destruct (eval n p w fr e) as [[[v w1] t1]|] eqn:E1; [|discriminate].
+           destruct (eval n p w fr e) as [[[v w1] t1]| |] eqn:E1; try discriminate.
            destruct (K <? v); [discriminate|].
-           destruct (loop _ i (Z.to_nat v) 0 w1 fr) as [[[[o2 w2] fr2] t2]|] eqn:E2; [|discriminate].
+           destruct (loop _ i (Z.to_nat v) 0 w1 fr) as [[[[o2 w2] fr2] t2]| |] eqn:E2; try discriminate.
            inversion H; subst. apply clean_app; [eauto|]. eapply loop_clean; [exact HIter| |exact E2]. exact Hbody.
         -- discriminate.
       * (* for list *) apply andb_prop in Hc. destruct Hc as [Hk Hb].
-        destruct (loop _ i len 0 w fr) as [[[[o2 w2] fr2] t2]|] eqn:E2; [|discriminate].
+        destruct (loop _ i len 0 w fr) as [[[[o2 w2] fr2] t2]| |] eqn:E2; try discriminate.
         inversion H; subst. apply clean_app.
         -- destruct (is_state k) eqn:Ek; [|apply clean_nil].
            destruct Hlim; subst lim; cbn; [|reflexivity]. rewrite Hm in Hk. discriminate.
         -- eapply loop_clean; [exact HIter| |exact E2]. intros ? ? ? ? ? ? H0. cbv beta in H0. eapply IHs; eauto.
-      * destruct (eval n p w fr e) as [[[v w1] t1]|] eqn:E1; [|discriminate]. inversion H; subst. eauto.
+      * destruct (eval n p w fr e) as [[[v w1] t1]| |] eqn:E1; try discriminate. inversion H; subst. eauto.
 Qed.
 
 Lemma check_all_ok p : check p = true -> all_ok p.
@@ -158,7 +158,7 @@ Qed.
 
 Lemma view_no_write_lemma p : check p = true ->
   forall n f g w fr o w' fr' t, nth_error (funs p) f = Some g -> mle (fmut g) View = true ->
-    exec n p w fr (fbody g) = Some (o, w', fr', t) -> quiet t.
+    exec n p w fr (fbody g) = Done (o, w', fr', t) -> quiet t.
 Proof.
   intros Hc n f g w fr o w' fr' t Hf Hm H.
   pose proof (check_all_ok p Hc) as Hall.
@@ -168,7 +168,7 @@ Qed.
 
 Lemma pure_silent_lemma p : check p = true ->
   forall n f g w fr o w' fr' t, nth_error (funs p) f = Some g -> fmut g = Pure ->
-    exec n p w fr (fbody g) = Some (o, w', fr', t) -> silent t.
+    exec n p w fr (fbody g) = Done (o, w', fr', t) -> silent t.
 Proof.
   intros Hc n f g w fr o w' fr' t Hf Hm H.
   pose proof (check_all_ok p Hc) as Hall.
@@ -204,15 +204,15 @@ Proof.
 Qed.
 
 Lemma loop_pres body i cnt :
-  (forall w fr o w' fr' t, body w fr = Some (o, w', fr', t) -> pres w w' t) ->
-  forall cur w fr o w' fr' t, loop body i cnt cur w fr = Some (o, w', fr', t) -> pres w w' t.
+  (forall w fr o w' fr' t, body w fr = Done (o, w', fr', t) -> pres w w' t) ->
+  forall cur w fr o w' fr' t, loop body i cnt cur w fr = Done (o, w', fr', t) -> pres w w' t.
 Proof.
   intros Hb. induction cnt as [|c IH]; intros cur w fr o w' fr' t H; cbn in H.
   - inversion H; subst. apply pres_refl.
-  - destruct (body w _) as [[[[o1 w1] fr2] t1]|] eqn:E; [|discriminate].
+  - destruct (body w _) as [[[[o1 w1] fr2] t1]| |] eqn:E; try discriminate.
     pose proof (Hb _ _ _ _ _ _ E) as C1.
     destruct o1.
-    + destruct (loop body i c (cur + 1) w1 fr2) as [[[[o2 w2] fr3] t2]|] eqn:E2; [|discriminate].
+    + destruct (loop body i c (cur + 1) w1 fr2) as [[[[o2 w2] fr3] t2]| |] eqn:E2; try discriminate.
       inversion H; subst. apply pres_cons_harmless; try reflexivity. eapply pres_trans; eauto.
     + inversion H; subst. apply pres_cons_harmless; try reflexivity. exact C1.
 Qed.
@@ -224,8 +224,8 @@ Proof.
 Qed.
 
 Lemma world_pres p : forall n,
-  (forall w fr e v w' t, eval n p w fr e = Some (v, w', t) -> pres w w' t) /\
-  (forall w fr s o w' fr' t, exec n p w fr s = Some (o, w', fr', t) -> pres w w' t).
+  (forall w fr e v w' t, eval n p w fr e = Done (v, w', t) -> pres w w' t) /\
+  (forall w fr s o w' fr' t, exec n p w fr s = Done (o, w', fr', t) -> pres w w' t).
 Proof.
   induction n as [|n [IHe IHs]]; [split; intros; discriminate|]. split.
   - intros w fr e v w' t H. destruct e; cbn in H.
@@ -234,19 +234,19 @@ Proof.
     + inversion H; subst. apply pres_any; cbn; auto.
     + inversion H; subst. apply pres_any; cbn; auto.
     + inversion H; subst. apply pres_any; cbn; auto.
-    + destruct (eval n p w fr e1) as [[[va w1] t1]|] eqn:E1; [|discriminate].
-      destruct (eval n p w1 fr e2) as [[[vb w2] t2]|] eqn:E2; [|discriminate].
+    + destruct (eval n p w fr e1) as [[[va w1] t1]| |] eqn:E1; try discriminate.
+      destruct (eval n p w1 fr e2) as [[[vb w2] t2]| |] eqn:E2; try discriminate.
       inversion H; subst. eapply pres_trans; eauto.
-    + destruct (eval n p w fr e) as [[[va w1] t1]|] eqn:E1; [|discriminate].
+    + destruct (eval n p w fr e) as [[[va w1] t1]| |] eqn:E1; try discriminate.
       destruct (nth_error (funs p) f) as [g|]; [|discriminate].
-      destruct (exec n p w1 _ (fbody g)) as [[[[o w2] fr2] t2]|] eqn:E2; [|discriminate].
+      destruct (exec n p w1 _ (fbody g)) as [[[[o w2] fr2] t2]| |] eqn:E2; try discriminate.
       inversion H; subst. eapply pres_trans; eauto.
-    + destruct (eval n p w fr e) as [[[va w1] t1]|] eqn:E1; [|discriminate].
+    + destruct (eval n p w fr e) as [[[va w1] t1]| |] eqn:E1; try discriminate.
       destruct k.
       * destruct (ext_mod w1 (sto w1) va) as [s r]. inversion H; subst.
         eapply pres_trans; eauto. apply pres_any; cbn; auto.
       * destruct m; inversion H; subst; eauto; (eapply pres_trans; eauto; apply pres_any; cbn; auto).
-    + destruct (eval n p w fr e) as [[[va w1] t1]|] eqn:E1; [|discriminate].
+    + destruct (eval n p w fr e) as [[[va w1] t1]| |] eqn:E1; try discriminate.
       destruct m.
       * inversion H; subst. eauto.
       * inversion H; subst. eapply pres_trans; eauto. apply pres_any; cbn; auto.
@@ -256,40 +256,40 @@ Proof.
         eapply pres_trans; eauto. apply pres_any; cbn; auto.
   - intros w fr s o w' fr' t H. destruct s; cbn in H.
     + inversion H; subst. apply pres_refl.
-    + destruct (exec n p w fr s1) as [[[[o1 w1] fr1] t1]|] eqn:E1; [|discriminate].
+    + destruct (exec n p w fr s1) as [[[[o1 w1] fr1] t1]| |] eqn:E1; try discriminate.
       destruct o1.
-      * destruct (exec n p w1 fr1 s2) as [[[[o2 w2] fr2] t2]|] eqn:E2; [|discriminate].
+      * destruct (exec n p w1 fr1 s2) as [[[[o2 w2] fr2] t2]| |] eqn:E2; try discriminate.
         inversion H; subst. eapply pres_trans; eauto.
       * inversion H; subst. eauto.
-    + destruct (eval n p w fr e) as [[[v w1] t1]|] eqn:E1; [|discriminate].
+    + destruct (eval n p w fr e) as [[[v w1] t1]| |] eqn:E1; try discriminate.
       destruct (wr w1 fr k x v) as [[w2 fr2] t2] eqn:Ew. inversion H; subst.
       eapply pres_trans; eauto. eapply wr_pres; eauto.
-    + destruct (eval n p w fr e) as [[[v w1] t1]|] eqn:E1; [|discriminate].
+    + destruct (eval n p w fr e) as [[[v w1] t1]| |] eqn:E1; try discriminate.
       destruct (wr w1 fr k x _) as [[w2 fr2] t2] eqn:Ew. inversion H; subst.
       apply (pres_trans w w w'); [destruct (is_state k); [apply pres_any; cbn; auto | apply pres_refl]|].
       eapply pres_trans; eauto. eapply wr_pres; eauto.
-    + destruct (eval n p w fr e) as [[[v w1] t1]|] eqn:E1; [|discriminate]. inversion H; subst. eauto.
-    + destruct (eval n p w fr e) as [[[v w1] t1]|] eqn:E1; [|discriminate]. inversion H; subst.
+    + destruct (eval n p w fr e) as [[[v w1] t1]| |] eqn:E1; try discriminate. inversion H; subst. eauto.
+    + destruct (eval n p w fr e) as [[[v w1] t1]| |] eqn:E1; try discriminate. inversion H; subst.
       eapply pres_trans; eauto. apply pres_any; cbn; auto.
-    + destruct (eval n p w fr c) as [[[v w1] t1]|] eqn:E1; [|discriminate].
-      destruct (exec n p w1 fr (if v =? 0 then s2 else s1)) as [[[[o2 w2] fr2] t2]|] eqn:E2; [|discriminate].
+    + destruct (eval n p w fr c) as [[[v w1] t1]| |] eqn:E1; try discriminate.
+      destruct (exec n p w1 fr (if v =? 0 then s2 else s1)) as [[[[o2 w2] fr2] t2]| |] eqn:E2; try discriminate.
       inversion H; subst. eapply pres_trans; eauto.
-    + assert (Hbody : forall w fr o w' fr' t, (fun w' fr' => exec n p w' fr' s) w fr = Some (o, w', fr', t) -> pres w w' t)
+    + assert (Hbody : forall w fr o w' fr' t, (fun w' fr' => exec n p w' fr' s) w fr = Done (o, w', fr', t) -> pres w w' t)
         by (intros ? ? ? ? ? ? H0; cbv beta in H0; eauto).
       destruct r.
       * eapply loop_pres; eauto.
-      * destruct (eval n p w fr e) as [[[v w1] t1]|] eqn:E1; [|discriminate].
+      * destruct (eval n p w fr e) as [[[v w1] t1]| |] eqn:E1; try discriminate.
         destruct (K <? v); [discriminate|].
-        destruct (loop _ i (Z.to_nat v) 0 w1 fr) as [[[[o2 w2] fr2] t2]|] eqn:E2; [|discriminate].
+        destruct (loop _ i (Z.to_nat v) 0 w1 fr) as [[[[o2 w2] fr2] t2]| |] eqn:E2; try discriminate.
         inversion H; subst. eapply pres_trans; eauto. eapply loop_pres; eauto.
-      * destruct (eval n p w fr e) as [[[v w1] t1]|] eqn:E1; [|discriminate].
-        destruct (loop _ i (Z.to_nat v) 0 w1 fr) as [[[[o2 w2] fr2] t2]|] eqn:E2; [|discriminate].
+      * destruct (eval n p w fr e) as [[[v w1] t1]| |] eqn:E1; try discriminate.
+        destruct (loop _ i (Z.to_nat v) 0 w1 fr) as [[[[o2 w2] fr2] t2]| |] eqn:E2; try discriminate.
         inversion H; subst. eapply pres_trans; eauto. eapply loop_pres; eauto.
-    + destruct (loop _ i len 0 w fr) as [[[[o2 w2] fr2] t2]|] eqn:E2; [|discriminate].
+    + destruct (loop _ i len 0 w fr) as [[[[o2 w2] fr2] t2]| |] eqn:E2; try discriminate.
       inversion H; subst.
       apply (pres_trans w w w'); [destruct (is_state k); [apply pres_any; cbn; auto | apply pres_refl]|].
       eapply loop_pres; eauto. intros ? ? ? ? ? ? H0; cbv beta in H0; eauto.
-    + destruct (eval n p w fr e) as [[[v w1] t1]|] eqn:E1; [|discriminate]. inversion H; subst. eauto.
+    + destruct (eval n p w fr e) as [[[v w1] t1]| |] eqn:E1; try discriminate. inversion H; subst. eauto.
 Qed.
 
 Lemma quiet_sto t : quiet t -> clean sto_quiet t /\ clean tra_quiet t.
@@ -301,7 +301,7 @@ Qed.
 
 Lemma view_state_unchanged_lemma p : check p = true ->
   forall n f g w fr o w' fr' t, nth_error (funs p) f = Some g -> mle (fmut g) View = true ->
-    exec n p w fr (fbody g) = Some (o, w', fr', t) -> quiet t /\ sto w' = sto w /\ tra w' = tra w.
+    exec n p w fr (fbody g) = Done (o, w', fr', t) -> quiet t /\ sto w' = sto w /\ tra w' = tra w.
 Proof.
   intros Hc n f g w fr o w' fr' t Hf Hm H.
   pose proof (view_no_write_lemma p Hc n f g w fr o w' fr' t Hf Hm H) as Q.
